@@ -25,7 +25,7 @@ prop(
          "'dead code in query' problem, cross-checked against ImpossibleCheck) the operation it belongs to (lowest common ancestor of the two "
          "sides' selectors) is evaluated by the real engine: arithmetic/comparison/and must be empty, unless must equal its left side, and "
          "making the flagged selector unsatisfiable must not change the whole query. Non-trivial: pint reported dead code AND both operands "
-         "of that operation are non-empty on this database (constant class: a report exists).",
+         "of that operation are non-empty on this database (constant class: a report exists). pint's verdicts are taken three ways and must agree: one utils.LabelsSource call on a freshly parsed query, and promql/impossible's problems from the REAL default check list run in process on ONE parsed entry (harness/pq/pintrun) as alerting and as recording rule; LabelsSource must be idempotent on a parsed query and no check may change the parsed query all checks share.",
     level_text="Generated-input search (rapid, fixed seeds) against the real PromQL engine as oracle. Says every dead-code report seen on N "
                "generated (expression, database) pairs was confirmed by evaluation; no proof of absence.",
     level_note="Databases stay inside the statement's domain (all labels present on all series). Engine errors of the flagged operation "
